@@ -30,6 +30,11 @@ fn programs(tier: Tier) -> Vec<String> {
         "unnest!(.a)", "unnest!(%m)", ". = unnest!(.a)", "x = unnest!(.a.b)", ".a = del(.b)", ".b = del(.a) || .c", "if exists(.a) { del(.a) } else { .a = 1 }",
         "for_each(array!(.a)) -> |_i, v| { .b = v }", ".a = map_values(object!(.a)) -> |v| { .seen = v; v }", "x = .a ?? .b", ".x = (.a == .b)", "x = [.a, .b, %m]",
         "x = {\"k\": .a, \"j\": del(.b)}", ". = {\"fresh\": .a}", "% = {\"fresh\": %m}", ".a[1] = .a[0]", ".a[-1] = del(.a[0])", "x = .a; .b = x; del(.a)", ".a = 1; .a = .a + 1 ?? 0; .b = .a",
+        // a write followed by a read whose TYPE the compiler derived from that write
+        ".a = true; if .a { .b = 1 }", "%m = false; if %m { .b = 1 } else { .b = 2 }", ".a = 1; .b = .a + 1", ".a = \"s\"; .b = upcase(.a)", ".a = [1]; .b = push(.a, 2)",
+        ".a = {\"k\": 1}; .b = .a.k + 1", ".a = true; .b = .a && true", ".a = 2; .b = 10 / .a", ".a = \"x\"; .b = .a + \"y\"", ".a = [1, 2]; for_each(.a) -> |_i, v| { .s = v }",
+        ".a = {\"k\": 1}; .a |= {\"j\": 2}", ".a = t'2021-02-03T04:05:06Z'; .b = format_timestamp!(.a, \"%s\")", ". = {\"a\": true}; if .a { .b = 1 }", "% = {\"m\": 1}; .b = %m + 1",
+        "del(.a); .b = .a ?? 1", ".a = 1; del(.a); .b = is_null(.a)",
         "get_secret(\"k\")", "set_secret(\"k\", string!(.a))", "remove_secret(\"k\")",
     ] {
         out.push(s.to_string());
